@@ -78,10 +78,13 @@ var (
 )
 
 // vf10MeekBound: see vfC16Bound (same reasoning: a multiple of the client's
-// longest timer; shorter only for the library's re-runs after a violation).
+// longest timer).  Once a violation has been established in this process the
+// re-runs of the failing case by the library (reproduce / shrink / capture) use
+// 2 s, only so that a failing run ends within the quick budget; the driver
+// wakes the worker with writes, so no client timer is involved in a re-run.
 func vf10MeekBound() time.Duration {
 	if vf10MeekFailedOnce.Load() {
-		return maxPollInterval + time.Second
+		return 2 * time.Second
 	}
 	return 4 * maxPollInterval
 }
@@ -1689,6 +1692,9 @@ func FuzzVerifC10MeekScript(f *testing.F) {
 	f.Add([]byte{})
 	f.Add([]byte("HTTP/1.1 200 OK\r\n\r\n"))
 	f.Fuzz(func(t *testing.T, data []byte) {
+		if vf10MeekFailedOnce.Load() {
+			t.Skip("a violation has already been reported by this process")
+		}
 		if len(data) > 4096 {
 			data = data[:4096]
 		}
